@@ -140,4 +140,66 @@ theorem Bufio.readFull_two (b : Bufio) (x y : UInt8) (R : Bytes) (hw : b.WF) (hf
     exact ⟨b1, rfl, hrem1.symm, hw1, hf1, hcap1, hfin1⟩
   | a :: a' :: a'' :: _, _, hlen, _ => simp at hlen
 
+/-- The fill loop of `Peek(n)`: afterwards at least `n` bytes are buffered (when the wire has
+that many and they fit), nothing is lost. -/
+theorem Bufio.fillUntil_spec (fuel n : Nat) (b : Bufio) (hw : b.WF) (hf : b.Fits)
+    (hn : n ≤ b.rem.length) (hcap : n ≤ b.cap) (hfuel : n ≤ fuel + b.buf.length) :
+    (Bufio.fillUntil fuel n b).rem = b.rem ∧ (Bufio.fillUntil fuel n b).WF ∧ (Bufio.fillUntil fuel n b).Fits ∧
+    (Bufio.fillUntil fuel n b).cap = b.cap ∧ (Bufio.fillUntil fuel n b).net.fin = b.net.fin ∧
+    n ≤ (Bufio.fillUntil fuel n b).buf.length := by
+  induction fuel generalizing b with
+  | zero =>
+    unfold Bufio.fillUntil
+    exact ⟨rfl, hw, hf, rfl, rfl, by omega⟩
+  | succ fuel ih =>
+    unfold Bufio.fillUntil
+    split
+    next hcond =>
+      obtain ⟨h1, h2, h3⟩ := hcond
+      have herr : b.err = none := by
+        cases he : b.err with
+        | none => rfl
+        | some e => simp [he] at h3
+      have hmore : b.net.segs.flatten ≠ [] := by
+        intro h0
+        simp only [Bufio.rem, h0, List.append_nil] at hn
+        omega
+      obtain ⟨d, hd, hbuf', hrem', hw', hf', hcap', _, hfin'⟩ := Bufio.fill_spec b hw hf h2 hmore herr
+      have hdl : 0 < d.length := List.length_pos_iff.mpr hd
+      obtain ⟨i1, i2, i3, i4, i5, i6⟩ := ih b.fill hw' hf' (by rw [hrem']; exact hn) (by rw [hcap']; exact hcap)
+        (by rw [hbuf', List.length_append]; omega)
+      exact ⟨by rw [i1, hrem'], i2, i3, by rw [i4, hcap'], by rw [i5, hfin'], i6⟩
+    next hcond =>
+      refine ⟨rfl, hw, hf, rfl, rfl, ?_⟩
+      -- the loop stopped: enough buffered (the other two exits are impossible here)
+      by_cases h1 : b.buf.length < n
+      · exfalso
+        apply hcond
+        refine ⟨h1, ?_, ?_⟩
+        · unfold Bufio.Fits at hf; omega
+        · cases he : b.err with
+          | none => rfl
+          | some e =>
+            have := (hw e he).1
+            simp only [Bufio.rem, this, List.append_nil] at hn
+            omega
+      · omega
+
+/-- `Peek(n)` shows the next `n` bytes of the wire without consuming them. -/
+theorem Bufio.peek_spec (b : Bufio) (n : Nat) (hw : b.WF) (hf : b.Fits)
+    (hn : n ≤ b.rem.length) (hcap : n ≤ b.cap) :
+    ∃ b', b.peek n = ((b.rem.take n, none), b') ∧ b'.rem = b.rem ∧ b'.WF ∧ b'.Fits ∧ b'.cap = b.cap ∧
+      b'.net.fin = b.net.fin ∧ n ≤ b'.buf.length := by
+  obtain ⟨h1, h2, h3, h4, h5, h6⟩ := Bufio.fillUntil_spec (n + 1) n b hw hf hn hcap (by omega)
+  refine ⟨Bufio.fillUntil (n + 1) n b, ?_, h1, h2, h3, h4, h5, h6⟩
+  unfold Bufio.peek
+  have hc : ¬ n > (Bufio.fillUntil (n + 1) n b).cap := by rw [h4]; omega
+  have hl : ¬ (Bufio.fillUntil (n + 1) n b).buf.length < n := by omega
+  simp only [hc, hl, if_false]
+  have : (Bufio.fillUntil (n + 1) n b).buf.take n = b.rem.take n := by
+    rw [← h1]
+    simp only [Bufio.rem]
+    rw [List.take_append_of_le_length h6]
+  rw [this]
+
 end Req.C02
